@@ -35,6 +35,16 @@ def run(ctx):
             accepted = [l for l in mk if l.split()[2] == "0"]
             ctx.cov["distinct_nontrivial"] += len(set(accepted))
             ctx.cov["samples"] += [mk[0][:300], accepted[0][:300] if accepted else "", mk[-1][:300]]
+            # the accepted sizes are every size from the smallest accepted one on (theorem accepts_iff): a size
+            # above it at which formatting panics is a concrete failing input
+            if accepted:
+                smallest = min(int(l.split()[1]) for l in accepted)
+                for l in mk:
+                    f = l.split()
+                    if int(f[1]) > smallest and f[2] != "0":
+                        ctx.add_violation("mkfs:format-refuses-size-above-minimum", "formatting a disk of %s blocks panics although %d blocks are accepted" % (f[1], smallest),
+                                          {"input": {"disk_size_blocks": int(f[1])}, "how": "harness mkfs -from %s -to %s" % (f[1], f[1]), "observed": l[:300]})
+                        break
             for l in lines:
                 if l.startswith("# ORACLE "):
                     msg = l[len("# ORACLE "):]
